@@ -57,6 +57,12 @@ def model_list():
     # attribute names whose sort order differs from the domain order (e, c, a, dd), with columns that have two parents
     out.append({'k': 3, 'edges': [(A[0], A[1], A[2])], 'name': 'triple3-scrambled', 'naming': 'scrambled'})
     out.append({'k': 4, 'edges': [(A[0], A[1]), (A[1], A[2]), (A[2], A[3]), (A[3], A[0]), (A[0], A[2])], 'name': 'diamond4-scrambled', 'naming': 'scrambled'})
+    # three 3-cliques overlapping pairwise around one attribute: a column whose parents come from two different cliques
+    out.append({'k': 5, 'edges': [(A[0], A[1], A[2]), (A[0], A[3], A[4]), (A[0], A[1], A[3])], 'sizes': [3, 3, 3, 2, 2], 'name': 'three-triples5'})
+    # an attribute with 200 values (codes beyond the range of a signed byte)
+    out.append({'k': 2, 'edges': [(A[0], A[1])], 'sizes': [200, 3], 'name': 'wide2', 'scale': 0.3, 'rows': [None, 2, 50, 1000], 'bound': 0})
+    # 4-cycle with a pendant attribute, built with a randomised (int) elimination-order search
+    out.append({'k': 5, 'edges': [(A[0], A[1]), (A[1], A[2]), (A[2], A[3]), (A[3], A[0]), (A[3], A[4])], 'sizes': [2, 3, 6, 6, 2], 'elim': 20, 'name': 'cycle4-pendant-int', 'rows': [None, 1, 3, 10, 100, 1000], 'bound': 0})
     return out
 
 
@@ -74,7 +80,9 @@ class World:
         spec = model_list()[mi]
         k = spec['k']
         self.attrs = S.rename(S.ATTRS[:k], spec.get('naming', 'letters'))
-        self.sizes = [2, 3, 2, 2][:k]
+        self.sizes = list(spec.get('sizes', [2, 3, 2, 2][:k]))
+        self.elim = spec.get('elim')
+        self.seed = seed
         self.total = total
         cliques = [tuple(S.rename(tuple(e), spec.get('naming', 'letters'))) for e in spec['edges']]
         rng = np.random.RandomState(zlib.crc32(repr((seed, mi, vclass)).encode()) % 2 ** 31)
@@ -102,7 +110,9 @@ class World:
         """a new model object per execution (no state shared between explored executions)"""
         from mbi import Domain, GraphicalModel
         dom = Domain(self.attrs, self.sizes)
-        m = GraphicalModel(dom, self.cliques + [(a,) for a in self.attrs if not any(a in c for c in self.cliques)], total=self.total)
+        if self.elim is not None:
+            np.random.seed(self.seed + 11)    # the randomised order search draws from numpy.random: owned here
+        m = GraphicalModel(dom, self.cliques + [(a,) for a in self.attrs if not any(a in c for c in self.cliques)], total=self.total, elimination_order=self.elim)
         m.potentials = model_potentials(m, self.attrs, self.sizes, self.pots)
         if self.with_marginals and O.explicit_joint(self.attrs, self.sizes, self.pots, self.total) is not None:
             m.marginals = m.belief_propagation(m.potentials)   # as models returned by the estimators carry them
@@ -298,7 +308,8 @@ def run_job(job):
         if w.joint is None:
             acc.outcome('precondition')
             continue
-        for rows in rows_menu(tier):
+        spec_ = model_list()[job['mi']]
+        for rows in (spec_.get('rows') or rows_menu(tier)):
             if rows is not None and rows >= 100000 and ti != 2:
                 continue
             for method in ['round', 'sample']:
@@ -306,6 +317,7 @@ def run_job(job):
                 bound = 0 if method == 'sample' else (1 if (tier == 'quick' or n > 100) else 2)
                 if n >= 100000:
                     bound = 0
+                bound = min(bound, spec_.get('bound', bound))    # wide domains: default executions only (hundreds of rounding steps each)
                 explore_case(acc, job, w, total, rows, method, bound)
         # models as returned by the estimators (carrying cached marginals), and a second call on the same object (history)
         wm = World(job['mi'], job['vclass'], total, job['seed'], with_marginals=True)
